@@ -339,6 +339,53 @@ def enumerate_cases(tier, shard, nshards):
                 yield {"enum": True, "kind": "job", "i": k, "dont_commit": dont_commit, "vendor": smp["vendor"], "model": smp["model"]}
 
 
+    # every registered vendor: the deploy rulebook its hardware gets from the provider is the shipped <vendor>.deploy file
+    from vf.model import sut
+    for j, v in enumerate(sorted(sut.registry())):
+        if j % nshards == shard:
+            yield {"enum": True, "kind": "shipped-deploy", "vendor": v, "model": ""}
+
+
+def _rb_shape(rb):
+    out = []
+    for row, r in (rb or {}).items():
+        a = r.get("attrs", {}) if isinstance(r, dict) else {}
+        out.append([row, repr(a.get("timeout")), repr(a.get("apply_logic_name")), len(a.get("dialogs") or {}), _rb_shape(r.get("children") or {})])
+    return out
+
+
+def _shipped_deploy(case):
+    """what a command's timeout and dialog answers are taken from is the vendor's shipped deploy rulebook: the provider must hand out
+    that file's rules whether or not the vendor also ships an ordering or a patching-alias file"""
+    import os
+    import annet.rulebook as R
+    from annet.lib import mako_render
+    from annet.rulebook.deploying import compile_deploying_text
+    from vf.model import sut
+    vendor = case["vendor"]
+    hw = sut.registry()[vendor].hardware
+    labels = ["shipped-deploy", "vendor:" + vendor]
+    path = os.path.join(os.path.dirname(R.__file__), "texts", vendor + ".deploy")
+    got = R.DefaultRulebookProvider().get_rulebook(hw)["deploying"]
+    if not os.path.exists(path):
+        if _rb_shape(got):
+            raise Violation("shipped-deploy-rulebook", f"{vendor}: no {vendor}.deploy file is shipped but the provider hands out deploy rules "
+                            f"{_rb_shape(got)!r}"[:600], {"vendor": vendor})
+        labels.append("no-deploy-file")
+        return labels
+    with open(path) as f:
+        text = f.read()
+    want = compile_deploying_text(mako_render(text, hw=hw), vendor)
+    if _rb_shape(got) != _rb_shape(want):
+        raise Violation("shipped-deploy-rulebook", f"{vendor}: the provider's deploy rulebook {_rb_shape(got)!r} is not the shipped file's "
+                        f"{_rb_shape(want)!r}"[:900], {"vendor": vendor})
+    if _rb_shape(want):
+        labels.append("deploy-rules-present")
+    if not os.path.exists(os.path.join(os.path.dirname(R.__file__), "texts", vendor + ".order")):
+        labels.append("deploy-file-without-order-file")
+    return labels
+
+
 _DRIVER = False
 
 
@@ -421,6 +468,8 @@ def _job(case):
 def check(case):
     if case.get("kind") == "job":
         return _job(case)
+    if case.get("kind") == "shipped-deploy":
+        return _shipped_deploy(case)
     from vf.core.runner import known_or_raise
     from annet.annlib.netdev.views.hardware import HardwareView
     from annet.deploy import apply_deploy_rulebook
